@@ -717,10 +717,12 @@ def run_fit_quantile(ctx, pygam, lits, idxs=None):
     evals, ops = [], []
     for i in idxs:
         force = dict(n=[12, 25, 40, 80, 150][i % 5] if i % 11 != 8 else [8, 16, 32][i % 3], ns=6)
-        if i % 4 == 1:
-            force['wk'] = 'skewint'          # strongly non-uniform integer weights with zeros, tied to the response
-        c = make_case(ctx.seed, st, i, ctx.tier, force=force)
         q, tol, mi, e0, prefit = fq_config(ctx, i, lits)
+        if i % 4 == 1 and mi < 40:
+            # strongly non-uniform integer weights with zeros, tied to the response (not on the 40-step searches: 40 re-fits at an
+            # expectile that runs into 0 or 1 are the slowest cases and such weights slow their PIRLS down further)
+            force['wk'] = 'skewint'
+        c = make_case(ctx.seed, st, i, ctx.tier, force=force)
         sig = case_sig(c, q=q, tol=tol, max_iter=mi, e0=e0, prefit=prefit)
         sig.pop('tau')
         ctx.count('quantile', q if q in QUANTILES else 'other')
@@ -937,6 +939,16 @@ def run_fq_intercept(ctx, pygam, idxs=None):
             if b2 is not None and b2.get('reason') == 'exception':
                 ctx.fail(st, sig, rp, observed=b2, expected='fit_quantile returns', oracle='valid arguments: no exception')
             continue
+        vals = [o['e'], o['coef']] + [v for x in o['fits'] for v in x]
+        if any(v is None or not np.isfinite(v) for v in vals) or not all(0 < x[0] < 1 for x in o['fits']) or not (0 < o['e'] < 1):
+            o2 = eval_fqi(pygam, Traced, c)
+            vals2 = [o2['e'], o2['coef']] + [v for x in o2['fits'] for v in x]
+            if o2['exc'] is not None or any(v is None or not np.isfinite(v) for v in vals2) or not all(0 < x[0] < 1 for x in o2['fits']) \
+                    or not (0 < o2['e'] < 1):
+                ctx.fail(st, sig, rp, observed=dict(reason='expectile outside (0,1) or non-finite coefficient', fits=[list(x) for x in o2['fits']],
+                                                    expectile=o2['e'], coef=o2['coef']),
+                         expected='every expectile strictly inside (0,1), finite fits', oracle='trace of public fit calls')
+            continue
         broken = fqi_balance_broken(c, o)
         if broken is not None:
             b2 = confirm()
@@ -966,9 +978,12 @@ def run_fq_intercept(ctx, pygam, idxs=None):
         # discontinuities: a coefficient within 1e-7 of a target (the ratio jumps), a ratio on a comparison boundary
         coefs_m = [float(t[1]) for t in mtr] + [float(m_coef)] + [x[1] for x in o['fits'] if x[1] is not None]
         near = any(np.min(np.abs(c['y'] - b)) < 1e-7 * scale for b in coefs_m)
+        qq, tq = f2q(c['q']), f2q(c['tol'])
         for b in coefs_m:
-            rr = float((b > c['y']).mean())
-            if abs(abs(rr - c['q']) - c['tol']) < 1e-9 or abs(rr - c['q']) < 1e-12:
+            k = int(np.sum(b > c['y']))
+            rr, rq = float((b > c['y']).mean()), Fraction(k, c['n'])
+            # the ratio k/n is rounded to a double in the code and exact in the model: skip where the two comparisons differ
+            if (bool(np.abs(rr - c['q']) <= c['tol']) != (abs(rq - qq) <= tq)) or ((rr < c['q']) != (rq < qq)):
                 near = True
         if near:
             ctx.count('intercept search skipped (within 1e-7 of a jump of the ratio / a comparison boundary)', 1)
